@@ -320,6 +320,22 @@ class Program:
             raise common.AnchorMissing("anchor function missing: %s (config %s)" % (path, self.config))
         return b
 
+    def lookup(self, path):
+        """Body for a callee path, also when the call crosses the crate boundary: from another crate rustc spells
+        `retrofire_core::math::vec::Vector::<R, retrofire_core::math::space::Real<2, B>>::y` and
+        `<retrofire_core::math::point::Point<R, Sp> as core::ops::arith::Sub>::sub`, while the defining crate's own
+        facts key the same items without the inner crate prefixes / with the crate in front of the `<`."""
+        b = self.bodies.get(path)
+        if b is not None or not path:
+            return b
+        for crate in ("retrofire_core", "retrofire_geom"):
+            pre = crate + "::"
+            if path.startswith(pre):
+                return self.bodies.get(pre + path[len(pre):].replace(pre, ""))
+            if path.startswith("<" + pre):
+                return self.bodies.get(pre + "<" + path[1:].replace(pre, ""))
+        return None
+
     def find(self, *needles, kind=None):
         """Bodies whose path contains all needles."""
         r = [b for p, b in self.bodies.items()
